@@ -339,3 +339,53 @@ pub fn code_point_templates(f: &F, thorough: bool) -> Vec<(String, String)> {
     }
     v
 }
+
+/// G7: an EMPTY compound / set (every connecter with and without a dangling separator, both set bracket
+/// pairs, bare compound brackets) at every position inside every container: alone, first, after a sibling,
+/// before a sibling in every compound connecter and set, as subject and as predicate of a statement, and
+/// one level deeper. (G1 / G5 are too short and one deviation from a well-formed string does not empty a
+/// nested compound.)
+pub fn g7_nested_empty(f: &F) -> Vec<String> {
+    let e = f.e;
+    let c = &e.compound;
+    let (lb, rb, sep) = (c.brackets.0, c.brackets.1, c.separator);
+    let mut empties: Vec<String> = vec![format!("{lb}{rb}")];
+    for conn in f.connecters() {
+        empties.push(format!("{lb}{conn}{rb}"));
+        empties.push(format!("{lb}{conn}{sep}{rb}"));
+        empties.push(format!("{lb}{conn}{sep}{sep}{rb}"));
+    }
+    for (l, r) in [c.brackets_set_extension, c.brackets_set_intension] {
+        empties.push(format!("{l}{r}"));
+        empties.push(format!("{l}{sep}{r}"));
+    }
+    let mut out = vec![];
+    let mut wrap = |x: &str, out: &mut Vec<String>| {
+        for conn in f.connecters() {
+            out.push(format!("{lb}{conn}{sep}{x}{rb}"));
+            out.push(format!("{lb}{conn}{sep}a{sep}{x}{rb}"));
+            out.push(format!("{lb}{conn}{sep}{x}{sep}a{rb}"));
+        }
+        for (l, r) in [c.brackets_set_extension, c.brackets_set_intension] {
+            out.push(format!("{l}{x}{r}"));
+            out.push(format!("{l}a{sep}{x}{r}"));
+            out.push(format!("{l}{x}{sep}a{r}"));
+        }
+        let st = &e.statement;
+        out.push(format!("{}{x} {} a{}", st.brackets.0, st.copula_inheritance, st.brackets.1));
+        out.push(format!("{}a {} {x}{}", st.brackets.0, st.copula_inheritance, st.brackets.1));
+    };
+    for x in &empties {
+        out.push(x.clone());
+        let mut one = vec![];
+        wrap(x, &mut one);
+        // one level deeper, for the product / conjunction / set / statement wrappings only
+        for y in one.iter().step_by(7) {
+            let mut two = vec![];
+            wrap(y, &mut two);
+            out.extend(two.into_iter().step_by(5));
+        }
+        out.extend(one);
+    }
+    out
+}
